@@ -72,7 +72,7 @@ fn run_case(seed: u64) -> Case {
     let mut rules: Vec<Vec<u8>> = vec![];
     let mut used = BTreeSet::new();
     for _ in 0..(1 + rng.below(6)) {
-        let k = rng.below(12);
+        let k = rng.below(14);
         if !used.insert(k) {
             continue;
         }
@@ -121,6 +121,15 @@ fn run_case(seed: u64) -> Case {
                 app.replicate::<NoRc>();
                 ("replicate::<NoRc>", vec![6])
             }
+            // bundles that list a component that cannot be exported BEFORE a reflected one
+            12 => {
+                app.replicate_bundle::<(Unreg, B)>();
+                ("replicate_bundle::<(Unreg,B)>", vec![4, 1])
+            }
+            13 => {
+                app.replicate_bundle::<(NoRc, C)>();
+                ("replicate_bundle::<(NoRc,C)>", vec![6, 2])
+            }
             _ => {
                 app.replicate_with_priority(0, (RuleFns::<C>::default(), RuleFns::<D>::default()));
                 ("replicate_with_priority(0,(C,D))", vec![2, 3])
@@ -137,6 +146,16 @@ fn run_case(seed: u64) -> Case {
         }
     }
     app.finish();
+    // sometimes the world has a past: entities that are gone, whose slots the live entities reuse with
+    // the next generation (an older export of the scene may still name the old incarnations)
+    let mut stale: Vec<Entity> = vec![];
+    if rng.below(3) == 0 {
+        let gone: Vec<Entity> = (0..1 + rng.below(3)).map(|_| app.world_mut().spawn_empty().id()).collect();
+        for e in &gone {
+            app.world_mut().entity_mut(*e).despawn();
+        }
+        stale = gone;
+    }
     let mut expected: BTreeMap<Entity, BTreeMap<u8, u32>> = BTreeMap::new();
     let mut unmarked: Vec<Entity> = vec![];
     for _ in 0..(1 + rng.below(7)) {
@@ -227,6 +246,15 @@ fn run_case(seed: u64) -> Case {
         unrelated = Some(e);
         case.desc.push(format!("scene already contains unrelated {e} at position {at}"));
     }
+    let mut stale_in_scene: BTreeSet<Entity> = BTreeSet::new();
+    for e in &stale {
+        if rng.below(2) == 0 {
+            let at = rng.below(sc.entities.len() + 1);
+            sc.entities.insert(at, bevy::scene::DynamicEntity { entity: *e, components: vec![Box::new(Local(5)).into_partial_reflect()] });
+            stale_in_scene.insert(*e);
+            case.desc.push(format!("scene already contains {e}, an earlier incarnation of a slot that is in use again, at position {at}"));
+        }
+    }
     let r = catch_unwind(AssertUnwindSafe(|| scene::replicate_into(&mut sc, app.world())));
     if r.is_err() {
         case.errs.push(format!("replicate_into panicked: {}", take_panic().unwrap_or_default()));
@@ -243,7 +271,7 @@ fn run_case(seed: u64) -> Case {
                 case.errs.push(format!("scene entity {} holds component {p} twice", de.entity));
             }
         }
-        if Some(de.entity) == unrelated {
+        if Some(de.entity) == unrelated || stale_in_scene.contains(&de.entity) {
             if de.components.len() != 1 {
                 case.errs.push(format!("unrelated scene entity {} was modified", de.entity));
             }
@@ -352,6 +380,6 @@ fn main() {
     }
     let mut j = res.to_json();
     j["harness_errors"] = json!([]);
-    j["rule"] = json!("one case = one seed-determined world: 1..6 distinct rules out of 12 (single, bundle, custom-priority tuple, once; over reflected+registered, reflected-unregistered, unreflected and registered-without-ReflectComponent types), 1..7 entities with random component subsets (3/4 marked), optionally a scene pre-populated with an unrelated entity and/or a marked entity carrying an unreplicated component; the export is compared with the harness' own rule evaluation, serialized and read back; non-trivial = at least two rules share a component type; distinct = distinct world description");
+    j["rule"] = json!("one case = one seed-determined world: 1..6 distinct rules out of 14 (single, bundle, custom-priority tuple, once; over reflected+registered, reflected-unregistered, unreflected and registered-without-ReflectComponent types), 1..7 entities with random component subsets (3/4 marked), optionally a scene pre-populated with an unrelated entity, earlier incarnations (previous generation) of slots that live entities reuse, and/or a marked entity carrying an unreplicated component; the export is compared with the harness' own rule evaluation, serialized and read back; non-trivial = at least two rules share a component type; distinct = distinct world description");
     write_json(&out, &j);
 }
